@@ -54,7 +54,9 @@ var writeSets = [][]write{
 }
 
 // prefixes under which every view is also read through Subset(p), and over which Subset(p).Snapshot() views are opened
-var subPrefixes = [][]byte{{0x10}, {0x10, 0x11}}
+// (slices with spare capacity, as prefixes built with append / JoinBytes have: an implementation that appends to the prefix
+// it was given writes into the caller's backing array)
+var subPrefixes = [][]byte{append(make([]byte, 0, 16), 0x10), append(make([]byte, 0, 16), 0x10, 0x11)}
 
 // view writes (through an open view)
 var viewWrites = []write{{kK, vY}, {kKA, nil}, {kKAB, vE}}
